@@ -48,7 +48,7 @@ def audit_pairs(run, prop, texts, pairfn, npairs, rnd):
     # only texts the reference accepted may be judged; restrict texts to used ones
     idx = sorted({i for i, _, _ in used} | {j for _, j, _ in used})
     remap = {old: k + 1 for k, old in enumerate(idx)}
-    ev = {"k": "audit", "texts": [texts[i - 1] for i in idx], "pairs": [[remap[i], remap[j], r] for i, j, r in used]}
+    ev = {"k": "audit", "eco": getattr(run, "audit_eco", ""), "texts": [texts[i - 1] for i in idx], "pairs": [[remap[i], remap[j], r] for i, j, r in used]}
     ep = run.path("audit.ndjson")
     vlib.write_ndjson(ep, [ev])
     mm, info = vlib.judge(run, ep, prop, name="audit")
@@ -71,6 +71,16 @@ def main(pid):
             texts = sorted({t for t, _ in U["maven"]})
             n, rej, mm = audit_pairs(run, "C12", texts, maven_driver(), 20000, rnd)
             mm = [m for m in mm if m["why"] != "audit-scope"]   # the universe deliberately exceeds the scope
+        elif pid == "C08":
+            import check_c08
+            U = vlib.universe(run, ["npm"])
+            texts = {t for t, _ in U["npm"]}
+            for j in check_c08.seeded(U, rnd, False):
+                if j["eco"] in ("npm", "golang"): texts |= set(j["texts"])
+            texts = sorted(texts)
+            run.audit_eco = "npm"
+            n, rej, mm = audit_pairs(run, "C08", texts, ["node", os.path.join(vlib.VERIF, "audit", "semver_cmp.js")], 30000, rnd)
+            mm = [m for m in mm if m["why"] != "audit-scope"]
         else:
             print("no audit for", pid); return 2
         scope = [m for m in mm if m["why"] == "audit-scope"]
